@@ -83,6 +83,11 @@ def sensitivity(by_prop, argv):
         if meta.get('retired'):
             print('RETIRED %s %s' % (meta['property'], sid))
             continue
+        if meta.get('outside_claim'):
+            print('OUTSIDE %s %s: %s' % (meta['property'], sid, meta['outside_claim'][:110]))
+            continue
+        if meta.get('caught_by'):
+            meta['property'] = meta['caught_by']
         p = subprocess.run([sys.executable, os.path.join(VERIF, 'tools', 'mutest.py'), meta['property'],
                             os.path.join(d, 'patch.diff')], stdout=subprocess.PIPE, stderr=subprocess.STDOUT,
                            universal_newlines=True)
